@@ -379,3 +379,79 @@ func ruleRetryBounded(c *Ctx, rule string) {
 
 var _ = strings.Contains
 var _ types.Type
+
+// C13.R9 / C08.R8 — per-range pickers agree on distinctness: both the allocator and the lookup that later reports the pod's
+// ips walk the requested ranges one by one; an ip accepted for one range must be excluded for the later ranges of the same
+// request (the allocator does so — its test even allocates two ips from one range twice given — so the lookup must, or
+// the annotation carries one ip twice and a persisted ip never reaches the plugin)
+func rulePerRangePickersDistinct(c *Ctx, rule string) {
+	n := 0
+	for _, name := range []string{"(*crdIpam).AllocateInSubnetsAndIPRange", "(*crdIpam).ByKeyAndIPRanges"} {
+		fn := c.MustFn(rule, fipPkg, name)
+		if fn == nil {
+			continue
+		}
+		for _, w := range calls(fn, fipPkg+".walkIPRanges") {
+			mc, ok := w.Common().Args[1].(*ssa.MakeClosure)
+			if !ok {
+				continue
+			}
+			cl := mc.Fn.(*ssa.Function)
+			// only pickers: callbacks that can stop the walk
+			accepts := returnsConstBool(cl, true)
+			if len(accepts) == 0 {
+				continue
+			}
+			// inside a loop over the ranges of the request?
+			inLoop := false
+			for _, b := range fn.Blocks {
+				for _, p := range b.Preds {
+					if b.Dominates(p) && naturalLoop(b)[w.Block()] {
+						inLoop = true
+					}
+				}
+			}
+			if !inLoop {
+				continue
+			}
+			n++
+			isSetFV := func(v ssa.Value) bool {
+				ld, ok := v.(*ssa.UnOp)
+				if !ok {
+					return false
+				}
+				_, isFV := ld.X.(*ssa.FreeVar)
+				return isFV && strings.Contains(ld.Type().String(), "sets.String")
+			}
+			excl := guardEdges(cl, func(v ssa.Value) (bool, int) {
+				call, ok := v.(*ssa.Call)
+				if !ok || !nameMatch(calleeName(call), "sets.String).Has") || len(call.Call.Args) == 0 || !isSetFV(call.Call.Args[0]) {
+					return false, 0
+				}
+				return true, 1 // the false edge: not yet chosen
+			})
+			var ins []ssa.Instruction
+			for _, i := range calls(cl, "sets.String).Insert") {
+				if len(i.Common().Args) > 0 && isSetFV(i.Common().Args[0]) {
+					ins = append(ins, i)
+				}
+			}
+			ok1, ok2 := len(excl) > 0, len(ins) > 0
+			if ok1 && ok2 {
+				r := reachFromEntry(cl, newCut().instr(ins...))
+				for _, a := range accepts {
+					if !guardedBy(cl, a, excl) {
+						ok1 = false
+					}
+					if r.has(a) {
+						ok2 = false
+					}
+				}
+			}
+			c.ob(rule, cl, "an ip accepted for one requested range is excluded for the later ranges", w, ok1 && ok2, fmt.Sprintf("the picker's `return true` lies behind the not-Has edge of a set shared across ranges (%v) and passes Insert into that set (%v): allocator and lookup report k distinct ips for k ranges", ok1, ok2))
+		}
+	}
+	if n < 2 {
+		c.undecided(rule, nil, "per-range pickers", nil, fmt.Sprintf("expected the allocator's and the lookup's picker, found %d", n))
+	}
+}
